@@ -42,10 +42,12 @@ type Case struct {
 	// SizeRule (size histories only): size.DefaultRule for the history; 0 keeps the library default (string and object form).
 	SizeRule int `json:"size_default_rule,omitempty"`
 	// NoLimit runs the history with the type's package MaxInputLength disabled (long inputs then reach the parsers).
-	NoLimit bool   `json:"no_limit,omitempty"`
-	A       vkit.B `json:"a,omitempty"`
-	B       vkit.B `json:"b,omitempty"`
-	Rule    int    `json:"rule,omitempty"`
+	NoLimit bool `json:"no_limit,omitempty"`
+	// Limit, when not zero, is the package MaxInputLength in force for a stateless case.
+	Limit int    `json:"limit,omitempty"`
+	A     vkit.B `json:"a,omitempty"`
+	B     vkit.B `json:"b,omitempty"`
+	Rule  int    `json:"rule,omitempty"`
 }
 
 type (
@@ -289,6 +291,14 @@ func judgeStateless(c Case, w *vkit.W) (anyErr bool) {
 		})
 		return anyErr
 	}
+	if c.Limit != 0 {
+		withLimit(c.Type, c.Limit, func() {
+			c2 := c
+			c2.Limit = 0
+			anyErr = judgeStateless(c2, w)
+		})
+		return anyErr
+	}
 	a, b := string(c.A), string(c.B)
 	ab, bb := []byte(a), []byte(b)
 	snapA, snapB := append([]byte{}, ab...), append([]byte{}, bb...)
@@ -381,7 +391,7 @@ var boundaryTexts = func() map[string][]string {
 }()
 
 var validTexts = map[string][]string{
-	"date":  {"2022-08-07", "20220807", "0001-01-01", "9999-12-31", "2024-02-29", "1999-12-31", "2000-01-01"},
+	"date":  {"2022-08-07", "20220807", "0001-01-01", "9999-12-31", "2024-02-29", "1999-12-31", "2000-01-01", "123450101", "1234560101", "12345-01-01"},
 	"roman": {"I", "IV", "MCMXCIV", "mdclxvi", "XLII", "CCCC", "ix", ""},
 	"sem":   {"1.2.3", "v1.2.3", "0.0.1", "1.0.0-alpha.1", "1.0.0-rc.1+build.5", "18446744073709551615.0.0", "v2.0.0+001", "10.20.30-a-b.c+d.e-f"},
 	"size":  {"10", "20KiB", "1 000 kB", "1_000", "1 KiB  ", "18446744073709551615", " 7 EiB ", "0", "1 02 4"},
@@ -622,6 +632,32 @@ func TestCheck(t *testing.T) {
 							c := Case{Kind: "stateless", Type: typ, A: vkit.B(a), B: vkit.B(long[typ][(i+1)%len(long[typ])]), Rule: rule, NoLimit: noLimit}
 							nt := judge(c, w)
 							w.EvalRandom(vkit.Hash64(typ, a, strconv.Itoa(rule), fmt.Sprint(noLimit)), nt)
+						}
+					}
+				}
+			}
+		})
+	})
+
+	r.Phase("stateless: valid texts (also five- to nine-digit years, written with and without separators) under every MaxInputLength from 1 to 40 and at each text's own length -1, +0, +1", func() {
+		r.Serial(func(w *vkit.W) {
+			extra := map[string][]string{"date": {"12345670101", "123456780101", "1234567890101", "123456-01-01", "1234567-01-01", "12345678-01-01", "123456789-01-01", "00010101", "99991231"}}
+			for _, typ := range types {
+				nRules := map[string]int{"date": 2, "roman": 2, "sem": 2, "size": 16, "uu": 4}[typ]
+				texts := append(append([]string{}, validTexts[typ]...), extra[typ]...)
+				for i, a := range texts {
+					limits := []int{len(a) - 1, len(a), len(a) + 1}
+					for l := 1; l <= 40; l++ {
+						limits = append(limits, l)
+					}
+					for _, limit := range limits {
+						if limit <= 0 {
+							continue
+						}
+						for rule := 0; rule < nRules; rule++ {
+							c := Case{Kind: "stateless", Type: typ, A: vkit.B(a), B: vkit.B(texts[(i+1)%len(texts)]), Rule: rule, Limit: limit}
+							nt := judge(c, w)
+							w.EvalRandom(vkit.Hash64(typ, a, strconv.Itoa(rule), strconv.Itoa(limit)), nt)
 						}
 					}
 				}
